@@ -145,7 +145,8 @@ Fixpoint subst_dq (stack : list (list tree)) (nn : option str) (inv : bool) (bs 
       | NotHere => Err
       | Found f =>
           match value_of f with
-          | VNone => Crash                               (* resolvedField.Primary().Value with Primary() == nil *)
+          | VNone => Err                                 (* cannot substitute variable without value (since /repo
+                                                            9d408296b; before: nil dereference) *)
           | VComposite => Err                            (* cannot substitute map variable in quotes *)
           | VScalar v =>
               if negb (plain v) then Uns
